@@ -16,8 +16,10 @@ open I18n.Generated
 
 /-! ## Pins: what the translator reads from the live module -/
 
-/-- the `_info` character sets (dumped sorted: only membership is ever used), the limit, the `*` argument type, the own error classes and `int()`'s digit limit (switched off
-    by `lib/__init__.py`) are what the model and the reference were written against -/
+/-- the `_info` character sets (dumped sorted: only membership is ever used), the limit, the `*` argument type
+    and the
+    classes the model raises or records being subclasses of the module's `Error` are what the model and the reference were written against (`int()`'s digit limit plays no
+    role in this parser: `int(ch)` only ever sees one ASCII digit) -/
 theorem info_pin :
     PyFormatTables.flagChars = [' ', '#', '+', '-', '0'] ∧ PyFormatTables.lengthChars = ['L', 'h', 'l'] ∧
     PyFormatTables.octCvt = ['o'] ∧ PyFormatTables.hexCvt = ['X', 'x'] ∧
@@ -25,11 +27,11 @@ theorem info_pin :
     PyFormatTables.otherCvt = ['a', 'c', 'r', 's'] ∧
     PyFormatTables.allCvt = ['%', 'E', 'F', 'G', 'X', 'a', 'c', 'd', 'e', 'f', 'g', 'i', 'o', 'r', 's', 'u', 'x'] ∧
     PyFormatTables.SSIZE_MAX = 2 ^ 31 - 1 ∧ PyFormatTables.SSIZE_MAX = Spec.CPyPercent.INT_MAX ∧
-    PyFormatTables.intMaxStrDigits = 0 ∧
     PyFormatTables.variableWidthType = "int" ∧ PyFormatTables.variablePrecisionType = "int" ∧
-    PyFormatTables.errorClasses = ["ArgumentIndexingMixture", "ArgumentTypeMismatch", "Error", "ForbiddenArgumentKey",
-      "ObsoleteConversion", "PrecisionRangeError", "RedundantFlag", "RedundantLength", "RedundantPrecision", "WidthRangeError"] := by
-  refine ⟨rfl, rfl, rfl, rfl, rfl, rfl, rfl, rfl, by decide, by decide, rfl, by decide, by decide, by decide⟩
+    (∀ n ∈ ["Error", "ForbiddenArgumentKey", "ArgumentIndexingMixture", "ArgumentTypeMismatch", "WidthRangeError",
+      "PrecisionRangeError", "RedundantFlag", "RedundantPrecision", "RedundantLength", "ObsoleteConversion"],
+      n ∈ PyFormatTables.errorClasses) := by
+  refine ⟨rfl, rfl, rfl, rfl, rfl, rfl, rfl, rfl, by decide, by decide, by decide, by decide, by decide⟩
 
 /-- the probed type of every conversion character (sorted by character): CPython's requirement on the argument
     (`d i u o x X` an integer, `e E f F g G` a real number, `c` a character or code point, `s r a` anything, `%` nothing) -/
